@@ -140,7 +140,16 @@ void k(int *t, int n, int i) { int ok = t[i < n ? i : n] == 0 && n > 1; if (ok &
 
 
 def tok_texts(toks):
-    return ["".join(chr(c) for c in cps) for k, cps in toks if k not in ("cmtl", "cmtb")]
+    out = []
+    for k, cps in toks:
+        if k in ("cmtl", "cmtb"):
+            continue
+        t = "".join(chr(c) for c in cps)
+        if k == "punct" and t in (">>", ">>>"):
+            out += [">"] * len(t)        # closing template brackets: uncrustify may write `> >` for `>>` (sp_angle_shift / tok_split_gte)
+        else:
+            out.append(t)
+    return out
 
 
 def directive_lines(texts, toks):
